@@ -44,6 +44,10 @@ def cases(chk):
     ]
     for c in corpus:
         yield "login", c
+    # frames written together with the server's reply of a resumed login: the race between the end of the handshake and the network thread
+    for i in range(chk.scale(40, 600)):
+        yield "login", {"variant": "IK", "edge": False, "passive": r.random() < 0.5, "cuts": [], "corrupt": False, "immediate": r.randint(1, 4),
+                        "down": r.randint(0, 2), "up": r.randint(0, 2), "chunk": r.choice([0, 0, 1, 16, 64]), "seed": r.randrange(1 << 30)}
     for _ in range(chk.scale(60, 1500)):
         v = r.choice(VARIANTS)
         yield "login", {"variant": v, "edge": r.random() < 0.3, "passive": r.random() < 0.4,
@@ -240,7 +244,7 @@ def run_case(chk, stream, case):
     c.spawn(app)
     err = None
     try:
-        c.run(lambda runnable: r.choice(runnable), limit=400000)
+        c.run(coop.chooser(r), limit=400000)
     except coop.Deadlock as e:
         err = e
     # ------------------------------------------------------------------------------------------ the property on the real run
